@@ -536,3 +536,31 @@ Proof. unfold run_sorted. intros ->. reflexivity. Qed.
 Theorem run_sorted_canonical {R} (cmd : builder -> R) l :
   run_sorted cmd l = cmd (builder_of (map snd (canon l))).
 Proof. unfold run_sorted. rewrite build_sorted_canonical. reflexivity. Qed.
+
+(* ---------------------------------------------------------------- 7. the pinned Build *)
+
+(* two files, each opening an account on 2020-01-01 *)
+Definition w_day : Z := of_civil 2020 1 1.
+Definition w_file_a : list (src * directive) :=
+  file_directives [97;46;107;110;117;116] [(0, DOpen w_day [s_Assets; [65]])].          (* a.knut: open Assets:A *)
+Definition w_file_b : list (src * directive) :=
+  file_directives [98;46;107;110;117;116] [(0, DOpen w_day [s_Assets; [66]])].          (* b.knut: open Assets:B *)
+
+Lemma w_keys_injective (x y : src * directive) :
+  In x (w_file_a ++ w_file_b) -> In y (w_file_a ++ w_file_b) -> fst x = fst y -> x = y.
+Proof.
+  cbn. intros [<-|[<-|[]]] [<-|[<-|[]]] E; try reflexivity; discriminate E.
+Qed.
+
+(* Build without the sort: `knut print` writes the opens in arrival order *)
+Theorem pinned_arrival_refuted :
+  exists l1 l2,
+    Permutation l1 l2 /\
+    (forall x y, In x l1 -> In y l1 -> fst x = fst y -> x = y) /\
+    run_pinned (print_of true) l1 <> run_pinned (print_of true) l2.
+Proof.
+  exists (w_file_a ++ w_file_b), (w_file_b ++ w_file_a). split; [|split].
+  - apply Permutation_app_comm.
+  - exact w_keys_injective.
+  - vm_compute. discriminate.
+Qed.
